@@ -33,7 +33,10 @@ ASSUMPTIONS = ["std::to_string(int) is the decimal representation with a leading
                "a compiler folds initialisers built from literals, M_PI, + - * / and earlier constant-initialised names (checked per build with nm); pow()/sqrt() calls are treated as dynamic (g++ folds them, clang++ does not)",
                "round-trip clause (Export_List/Export_Table -> Import_*): values and unit factors are drawn from the stated ranges (600 decades x 60 decades) WITHOUT filtering the "
                "quotient x/u; only 0 with a negative unit is avoided (written as '-0', outside the exact-rational model). The bytes are compared with the model unless the exact quotient is "
-               "within 2^-40 of a six-digit rounding boundary (the double division decides: excused, counted) or outside the normal double range (oracle only: known defect 9). "
+               "within 2^-40 of a six-digit rounding boundary (the division decides: excused, counted). Quotients outside the double range (repaired by 5c3fb95: formed, written and read "
+               "as long double) are compared with the exact model like every other value; a failure on such an entry is reported under its own clause. "
+               "long double is assumed to be the x87 80-bit format (x86-64, g++ and clang++: largest finite value (1-2^-64)*2^16384, smallest subnormal 2^-16445; model constants ldMax, ldTiny); "
+               "on a platform where long double is double the repair is a no-op and the old double range applies. "
                "The other families (single values, Export_Function, size-targeted headers, In_Units with rounding) keep the 2^-40 margin by construction",
                "round-trip bound: half a unit of the sixth significant digit of x/u + 2^-50 |x/u| (double division and multiplication); Log_Space abscissae of Export_Function: 2^-36 (exp/log)",
                "In_Units undo: 3 eps; derived-unit identities and definitions on a build's own constants: 4 eps in every build"]
@@ -387,6 +390,12 @@ def generate(tier, seed, ctx):
             t[rng.randrange(r)][jc] = x
             R.append("c20.rttable %s %s %s" % (enhex(rng.choice(HEADERS)), lst(us), tbl(t)))
     R += size_targeted(rng, thorough)
+    # a table without rows: the file is the header alone (or empty); read with the number of header lines written it is
+    # the empty table (5eb5000: it was a division by zero)
+    for h in HEADERS:
+        for us in ([], [gen_unit(rng), gen_unit(rng)]):
+            if thorough or rng.random() < 0.6 or h == "":
+                R.append("c20.rttable %s %s 0" % (enhex(h), lst(us)))
     for k in range(60 if thorough else 24):   # guards, ragged rows, empty rows
         r, c = rng.randint(1, 6), rng.randint(1, 5)
         kind = k % 4
@@ -621,7 +630,118 @@ def _one_build(ctx, scratch, cc, opt, names):
     for line in r.stdout.splitlines():
         n, _, v = line.partition(" ")
         vals[n] = fl(v.strip())
-    return tag_, dict(klass=klass, values=vals)
+    res = dict(klass=klass, values=vals)
+    res.update(_rt_build(ctx, d, cc, opt, inc, obj))
+    return tag_, res
+
+
+# round trips through the long double path of Export_*/Import_* (5c3fb95) in every separately compiled build:
+# (values, unit) lists and one table with the out-of-range entry in the centre
+RT_LISTS = [([1.0, 1e300, 2.0], 1e-30), ([1.23456e-290, 7.0], 1e30), ([1.23456e-300, 5.0, -3.5e-299], 1e25),
+            ([2.5, -1234567.0, 1e-5, 0.0], 3.0), ([9.87654e299, -1e-300], 2.5e-29), ([123456.5, 0.000123456789], 1.0)]
+RT_TABLES = [([[1.0, 2.0, 3.0], [4.0, 1e300, 6.0], [7.0, 8.0, 9.0]], [1.0, 1e-30, 2.0]),
+             ([[1.5e-295, 2.0], [-3.25, 4e-299]], [1e28, 1e9])]
+
+
+def _rt_build(ctx, d, cc, opt, inc, nu_obj):
+    uobj = os.path.join(d, "util.o")
+    r = subprocess.run([cc, "-std=c++14", opt, "-w"] + inc + ["-c", os.path.join(ctx["repo"], "src", "Utilities.cpp"), "-o", uobj],
+                       stdout=subprocess.PIPE, stderr=subprocess.STDOUT, text=True)
+    if r.returncode != 0:
+        return dict(rt_error="compile Utilities.cpp: " + r.stdout[-800:])
+    defined, undefined = set(), set()
+    for o in (uobj, nu_obj):
+        for line in subprocess.run(["nm", o], stdout=subprocess.PIPE, text=True).stdout.splitlines():
+            parts = line.split()
+            if len(parts) == 2 and parts[0] == "U":
+                undefined.add(parts[1])
+            elif len(parts) == 3 and parts[1] in "TtRrDdBbWwVvuG":
+                defined.add(parts[2])
+    stubs = ["-Wl,--defsym,%s=0" % s for s in sorted(undefined - defined) if re.match(r"_ZNK?10libphysica", s)]
+    src = os.path.join(d, "rt.cpp")
+    NL = "\\n"      # a line feed escape inside the generated C++ string literals
+    with open(src, "w") as f:
+        f.write("#include <cstdio>\n#include <cstdlib>\n#include <fstream>\n#include <iterator>\n#include <string>\n#include <vector>\n"
+                "#include \"libphysica/Utilities.hpp\"\n"
+                "static void dump(const std::string& p){ std::ifstream f(p, std::ios::binary); std::string s((std::istreambuf_iterator<char>(f)), "
+                "std::istreambuf_iterator<char>()); for(unsigned char c : s) std::printf(\"%02x\", c); }\n"
+                "static double H(const char* s){ return std::strtod(s, nullptr); }\n"
+                "int main(int argc, char** argv){ std::string dir = argv[1];\n")
+        for i, (xs, u) in enumerate(RT_LISTS):
+            f.write('  { std::string p = dir + "/l%d.dat"; std::vector<double> x = {%s}; double u = H("%s");\n' % (
+                i, ", ".join('H("%s")' % hx(x) for x in xs), hx(u)))
+            f.write('    libphysica::Export_List(p, x, u, "# h"); std::printf("L%d 0 "); dump(p); auto b = libphysica::Import_List(p, u, 1);\n' % i)
+            f.write('    std::printf(" %zu", b.size()); for(double v : b) std::printf(" %a", v); std::printf("' + NL + '"); }\n')
+        for i, (t, us) in enumerate(RT_TABLES):
+            rows = ", ".join("{" + ", ".join('H("%s")' % hx(x) for x in row) + "}" for row in t)
+            f.write('  { std::string p = dir + "/t%d.dat"; std::vector<std::vector<double>> x = {%s}; std::vector<double> u = {%s};\n' % (
+                i, rows, ", ".join('H("%s")' % hx(u_) for u_ in us)))
+            f.write('    libphysica::Export_Table(p, x, u, "# h"); std::printf("T%d 0 "); dump(p); auto b = libphysica::Import_Table(p, u, 1);\n' % i)
+            f.write('    std::printf(" %zu", b.size()); for(auto& r : b){ std::printf(" %zu", r.size()); for(double v : r) std::printf(" %a", v); } std::printf("'
+                    + NL + '"); }\n')
+        f.write("  return 0; }\n")
+    exe = os.path.join(d, "rt")
+    r = subprocess.run([cc, "-std=c++14", opt, "-w"] + inc + [src, uobj, nu_obj] + stubs + ["-lconfig++", "-o", exe],
+                       stdout=subprocess.PIPE, stderr=subprocess.STDOUT, text=True)
+    if r.returncode != 0:
+        return dict(rt_error="link: " + r.stdout[-800:])
+    r = subprocess.run([exe, d], stdout=subprocess.PIPE, stderr=subprocess.STDOUT, text=True, timeout=60)
+    out = {}
+    for line in r.stdout.splitlines():
+        ts = line.split()
+        if ts and re.fullmatch(r"[LT]\d+", ts[0]):
+            out[ts[0]] = ts[2:]
+    if r.returncode != 0:
+        return dict(rt=out, rt_error="run: status %d %s" % (r.returncode, r.stdout[-300:]))
+    return dict(rt=out)
+
+
+def py_rt_builds(ctx):
+    """the long double path of Export_*/Import_* in every separately compiled build: shape and six digits, and the same
+    bytes in every build"""
+    out = []
+    B = builds(ctx)
+    ref_bytes = {}
+    for b, res in B.items():
+        if "error" in res:
+            continue
+        if "rt_error" in res:
+            out.append(fail("prop" if res["rt_error"].startswith("run") else "corr", "round trip through Export_*/Import_* in build %s does not run" % b, res["rt_error"]))
+        rt = res.get("rt", {})
+        for i, (xs, u) in enumerate(RT_LISTS):
+            ts = rt.get("L%d" % i)
+            if not ts:
+                continue
+            ref_bytes.setdefault("L%d" % i, {})[b] = ts[0]
+            n = int(ts[1])
+            vs = [fl(t) for t in ts[2:2 + n]]
+            bad = n != len(xs) or any(not six_digit_ok(v, x, u) for v, x in zip(vs, xs))
+            if bad:
+                oor = [(x, u) for x in xs if quotient_oor(x, u)]
+                f = fail("prop", "Import_List(Export_List(data)) differs in length or in the first six significant digits (build %s)" % b,
+                         "%r / %r -> %r, file %r" % (xs, u, vs, unhex(ts[0])))
+                out += relabel_oor([f], oor)
+        for i, (t, us) in enumerate(RT_TABLES):
+            ts = rt.get("T%d" % i)
+            if not ts:
+                continue
+            ref_bytes.setdefault("T%d" % i, {})[b] = ts[0]
+            try:
+                rows, _ = read_table(ts[1:], fl)
+            except Exception:
+                rows = None
+            bad = rows is None or [len(r) for r in rows] != [len(r) for r in t] or any(
+                not six_digit_ok(v, x, us[j]) for rr, tr in zip(rows, t) for j, (v, x) in enumerate(zip(rr, tr)))
+            if bad:
+                oor = [(x, us[j]) for row in t for j, x in enumerate(row) if quotient_oor(x, us[j])]
+                f = fail("prop", "Import_Table(Export_Table(data)) differs in shape or in the first six significant digits (build %s)" % b,
+                         "%r / %r -> %r" % (t, us, rows))
+                out += relabel_oor([f], oor)
+        ctx["nontrivial"].add(("rt-build", b, len(rt)))
+    for case, per in ref_bytes.items():
+        if len(set(per.values())) > 1:
+            out.append(fail("corr", "the builds disagree on the bytes Export_* writes (long double path)", "%s: %s" % (case, {k: unhex(v)[:60] for k, v in per.items()})))
+    return out
 
 
 def builds(ctx):
@@ -829,9 +949,9 @@ def compare(rq, impl, model, ctx):
                     break
         oor = [(x, u) for x in xs if quotient_oor(x, u)]
         if oor:
-            # IEEE overflow / underflow of the quotient is outside the exact-rational model: oracle only
+            # after 5c3fb95 the quotient is a long double: inside the model's range again, compared like every other value
             bump(ctx, "requests with a quotient outside the double range")
-            return relabel_oor(out, oor)
+            out = relabel_oor(out, oor)
         hl_ = h.count("\n") + 1 if h else 0
         cmp_bytes(bi, bm, hl_, lambda i, j: (xs[i], u) if i < len(xs) and j == 0 else None, "Export_List", out, ctx)
         if ti[1] != tm[1]:
@@ -853,19 +973,19 @@ def compare(rq, impl, model, ctx):
         oor = [(x, us[j] if us else 1.0) for row in t for j, x in enumerate(row) if j < (len(us) if us else len(row)) and quotient_oor(x, us[j] if us else 1.0)]
         if oor:
             bump(ctx, "requests with a quotient outside the double range")
-        if not oor:
-            cmp_bytes(bi, bm, hl_, lambda i, j: (nonempty[i][j], us[j] if us else 1.0) if i < len(nonempty) and j < len(nonempty[i]) else None,
-                      "Export_Table", out, ctx)
+        cmp_bytes(bi, bm, hl_, lambda i, j: (nonempty[i][j], us[j] if us else 1.0) if i < len(nonempty) and j < len(nonempty[i]) else None,
+                  "Export_Table", out, ctx)
         if ti[1] != tm[1]:
             out.append(fail("corr", "Count_Lines of the exported table", "impl %s model %s" % (ti[1], tm[1])))
-        if not oor and (tm[2] != "glue1" or tm[3] != "tl1"):
+        if tm[2] != "glue1" or tm[3] != "tl1":
             out.append(fail("corr", "model-internal: character level and token level disagree", " ".join(tm[2:4])))
         rect = len(t) >= 1 and len(t[0]) >= 1 and all(len(r) == len(t[0]) for r in t)
         im_i, im_m = ti[2:], tm[4:]
         if im_i and im_i[0].startswith("import:"):
             oi = " ".join(im_i)[7:]
-            if rect:
-                out.append(fail("prop", "Import_Table of an exported table with the number of header lines written stops or crashes", oi))
+            if rect or len(t) == 0:
+                out.append(fail("prop", "Import_Table of an exported table with the number of header lines written stops or crashes" +
+                                (" (table without rows: header only / empty file)" if len(t) == 0 else ""), oi))
                 return relabel_oor(out, oor)
             elif im_m[0] == "err" and oi != "err":
                 out.append(fail("prop", "meaningless import did not stop with a diagnostic", oi))
@@ -873,6 +993,8 @@ def compare(rq, impl, model, ctx):
                 out.append(fail("corr", "Import_Table outcome", "impl %s model ok" % oi))
             return out
         ri, _ = read_table(im_i, fl)
+        if len(t) == 0 and ri != []:
+            out.append(fail("prop", "Import_Table of an exported table without rows (header only / empty file) is not the empty table", "%s" % [len(r) for r in ri][:6]))
         if rect:
             if len(ri) != len(t) or any(len(r) != len(t[0]) for r in ri):
                 out.append(fail("prop", "table read back has a different shape", "%dx%d -> %s" % (len(t), len(t[0]), [len(r) for r in ri][:6])))
@@ -884,8 +1006,7 @@ def compare(rq, impl, model, ctx):
                         out.append(fail("prop", "table entry read back differs in the first six significant digits",
                                         "[%d][%d] %r -> %r (unit %r)" % (i, j, tr[j], rr[j], us[j] if us else 1.0)))
                         break
-        if oor:
-            return relabel_oor([f for f in out if f["kind"] == "prop"], oor)
+        out = relabel_oor(out, oor)
         if im_m[0] in ("err", "undef"):
             if im_m[0] == "err":
                 out.append(fail("corr", "Import_Table outcome", "impl ok model err"))
@@ -1490,7 +1611,7 @@ def compare_units(op, a, model, ctx):
             if "error" in res:
                 out.append(fail("corr", "build %s of Natural_Units.cpp failed" % b, res["error"]))
         ctx["stats"]["unit_definitions"] = n
-        return out + py_identities(ctx)
+        return out + py_identities(ctx) + py_rt_builds(ctx)
     if op == "c20.unit":
         name, klass, expr = a[0], tm[0], tm[1:]
         ref = eval_prefix(expr)
@@ -1606,7 +1727,7 @@ def oracle_only(rq, impl, ctx):
     op = rq.split(" ", 1)[0]
     a = rq.split()[1:]
     if op == "c20.units":
-        return py_identities(ctx)
+        return py_identities(ctx) + py_rt_builds(ctx)
     if op == "c20.unit":
         return py_definition_check(a[0], ctx)
     if op in ("c20.rtfuncL", "c20.rtfuncG"):
